@@ -72,14 +72,21 @@ theorem fresh_stationary (st : St) (b : Nat) (members : Array Nat)
     (hmem : ∀ x : Nat, x < st.vars.size → (x ∈ members ↔ blk st.vars x = b))
     (hlt : ∀ x ∈ members, x < st.vars.size) (hnd : members.toList.Nodup)
     (hB : ((st.blocks[b]!).scale, (st.blocks[b]!).posn) = blockPosn st.vars members)
-    (hs : ∀ i : Nat, (st.vars[i]!).scale ≠ 0)
+    (hs : ∀ i : Nat, i < st.vars.size → (st.vars[i]!).scale ≠ 0)
     (hA2 : listSum (fun i => (st.vars[i]!).weight * ((st.vars[members[0]!]!).scale / (st.vars[i]!).scale) *
             ((st.vars[members[0]!]!).scale / (st.vars[i]!).scale)) members.toList ≠ 0) :
     blockSum st.vars (qOf st) b = 0 := by
   rw [blockPosn_eq] at hB
   simp only [Prod.mk.injEq] at hB
   obtain ⟨hS, hP⟩ := hB
-  have hS0 : (st.vars[members[0]!]!).scale ≠ 0 := hs _
+  have hne : 0 < members.size := by
+    rcases Nat.eq_zero_or_pos members.size with h0 | h0
+    · exfalso; apply hA2
+      have : members = #[] := Array.eq_empty_of_size_eq_zero h0
+      subst this; simp [listSum]
+    · exact h0
+  have hS0 : (st.vars[members[0]!]!).scale ≠ 0 :=
+    hs _ (hlt _ (by rw [getElem!_pos members 0 hne]; exact Array.getElem_mem hne))
   -- the block sum as a sum over the member list
   have h1 : blockSum st.vars (qOf st) b = listSum (qOf st) members.toList := by
     rw [listSum_indicator st.vars.size _ _ hnd (fun a ha => hlt a (by simpa using ha))]
@@ -102,7 +109,7 @@ theorem fresh_stationary (st : St) (b : Nat) (members : Array Nat)
     apply listSum_congr
     intro x hx
     have hxb : (st.vars[x]!).block = b := (hmem x (hlt x (by simpa using hx))).1 (by simpa using hx)
-    have hsx := hs x
+    have hsx := hs x (hlt x (by simpa using hx))
     simp only [qOf, St.dfdv, St.pos, posOf, hxb, hS]
     field_simp
     ring
